@@ -25,7 +25,7 @@ ASSUMPTIONS = [
     "order is checked on the documented sort key (score in 1e-3 steps, then name)",
 ]
 MIN = {
-    "quick": {"reported_set": 80, "ordered": 80, "chain_structure": 100, "chain_minors": 100,
+    "quick": {"reported_set": 80, "ordered": 80, "structures_passed_on": 80, "chain_structure": 100, "chain_minors": 100,
               "chain_diplotype": 100, "empty_stage_error": 3, "majors_passed_on": 80},
     "thorough": {"reported_set": 2500, "ordered": 2500, "chain_structure": 3000, "chain_minors": 3000,
                  "chain_diplotype": 3000, "empty_stage_error": 20, "majors_passed_on": 2500},
@@ -114,6 +114,12 @@ def check_run(res, g, rec, result, err, gap, desc):
                   "no structure solution but no error / a genotype was reported", error=repr(err), **desc)
         return None
     min_c = min(cn_scores.values())
+    # every structure solution is a source of candidates: each must have been handed to the major stage
+    asked = {ck for ck, cs, lst in rec.major_calls}
+    res.check("structures_passed_on", asked == set(cn_scores),
+              "a structure solution was not handed to the major-allele stage (its candidates are missing from the "
+              "selection)", missing=sorted(map(str, set(cn_scores) - asked))[:3],
+              recorded_structure_scores=sorted(cn_scores.values())[:5], **desc)
     majors = {}  # key -> adjusted score
     major_cn = {}
     for ck, cs, lst in rec.major_calls:
